@@ -294,7 +294,6 @@ namespace bloch::compiler {
 
         // Parse annotations
         while (check(TokenType::At)) {
-            (void)previous();
             std::unique_ptr<AnnotationNode> annotation = parseFunctionAnnotation();
             // TODO: Refactor this to a switch statement
             if (annotation->name == "quantum") {
